@@ -333,6 +333,9 @@ func (fgen *funcGen) irInvokeTerm(new ir.Terminator, old *ast.InvokeTerm) error 
 		panic(fmt.Errorf("invalid IR terminator for AST terminator; expected *ir.TermInvoke, got %T", new))
 	}
 	// Function arguments.
+	if err := checkNoVarArgForwarding(old.Args()); err != nil {
+		return errors.WithStack(err)
+	}
 	if oldArgs := old.Args().Args(); len(oldArgs) > 0 {
 		term.Args = make([]value.Value, len(oldArgs))
 		for i, oldArg := range oldArgs {
@@ -438,6 +441,9 @@ func (fgen *funcGen) irCallBrTerm(new ir.Terminator, old *ast.CallBrTerm) error 
 		panic(fmt.Errorf("invalid IR terminator for AST terminator; expected *ir.TermCallBr, got %T", new))
 	}
 	// Function arguments.
+	if err := checkNoVarArgForwarding(old.Args()); err != nil {
+		return errors.WithStack(err)
+	}
 	if oldArgs := old.Args().Args(); len(oldArgs) > 0 {
 		term.Args = make([]value.Value, len(oldArgs))
 		for i, oldArg := range oldArgs {
